@@ -126,7 +126,7 @@ func init() {
 			"'lit'", "'a b'", "\"q 'x' q\"", "'and'", "`name x`", "'<= !='", "''", "\"\"", "'(a,b)'", "'a+b=c'",
 			// literals and quoted names with characters outside ASCII (two- and three-byte runes, some whose code point
 			// ends in the byte of a quote, a blank or '!'), with a semicolon, with blanks at both ends
-			"'h\u00e9llo'", "\"\u65e5\u672c\"", "`\u00f1ame`", "'\u0127'", "'\u0120x'", "'\u0121='", "'a;b'", "`k;1`", "' x '", "'50%'", "'\xff\xfe'"}
+			"'h\u00e9llo'", "\"\u65e5\u672c\"", "`\u00f1ame`", "'\u0127'", "'\u0120x'", "'\u0121='", "'a;b'", "`k;1`", "' x '", "'50%'", "'\xff\xfe'", "'a`b'", "\"x`y`z\"", "`q'r`", "'`'"}
 		for i := 0; i < c.n; i++ {
 			r := caseRand(c.shard, i)
 			n := 1 + r.Intn(14)
